@@ -64,6 +64,7 @@ type PHandPlayer struct {
 	Hole     int      `json:"hole"`
 	Combo    bool     `json:"combo"`
 	Power    int      `json:"power"`
+	Rank     int      `json:"rank"` // dense rank of Power among the hand's players (0 = weakest)
 }
 
 type PHand struct {
@@ -309,6 +310,22 @@ func (r *Recorder) projectHand(gs *pokerface.GameState) PHand {
 			hp.Power = p.Combination.Power
 		}
 		h.P = append(h.P, hp)
+	}
+	for i := range h.P {
+		for j := range h.P {
+			if h.P[j].Power < h.P[i].Power {
+				seen := false
+				for k := 0; k < j; k++ {
+					if h.P[k].Power == h.P[j].Power {
+						seen = true
+					}
+				}
+				if !seen {
+					h.P[i].Rank++
+				}
+			}
+		}
+		h.P[i].Power = h.P[i].Power % 1000000
 	}
 	if gs.Result != nil {
 		for _, rp := range gs.Result.Players {
